@@ -366,6 +366,16 @@ func genValue(r *rand.Rand, depth int, domainOnly bool) interface{} {
 		return ggql.Var(genName(r))
 	case 9, 10:
 		out := []interface{}{}
+		if r.Intn(6) == 0 {
+			// neighbours whose texts could run into one another without a separator: strings next to strings
+			// (an empty one first: "" "b" must not read as the start of a block string), numbers next to
+			// numbers and names, a string next to a name
+			pool := []interface{}{"", "", genString(r), "b", int64(r.Intn(20)), ggql.Symbol("E"), float64(1.5), true, nil, "\"", "x\\"}
+			for n := 2 + r.Intn(4); n > 0; n-- {
+				out = append(out, pool[r.Intn(len(pool))])
+			}
+			return out
+		}
 		for n := r.Intn(4); n > 0; n-- {
 			out = append(out, genValue(r, depth+1, domainOnly))
 		}
